@@ -22,7 +22,8 @@ type Op struct {
 	Channel string `json:"channel,omitempty"` // pt_set | fg_set | pt_grow | st_set
 	Idx     int    `json:"idx,omitempty"`
 	N       int    `json:"n,omitempty"`
-	Sub     []Op   `json:"sub,omitempty"` // executed inside host.act during this call
+	Sub     []Op   `json:"sub,omitempty"`  // executed inside host.act during this call
+	Deps    []int  `json:"deps,omitempty"` // model: producers of the funcrefs this step calls through (their state feeds the observation too)
 	// model annotations (generator side, used for signatures and evidence only, never for the verdict)
 	Observe      bool     `json:"observe,omitempty"`
 	Mutates      bool     `json:"mutates,omitempty"`
@@ -1248,6 +1249,11 @@ func (g *gen) annotateAndApply(m *model, op *Op) {
 	}
 	if len(op.Stale) > 0 {
 		m.tainted = true
+	}
+	for _, ri := range used {
+		if ri.prod >= 0 && ri.prod != op.Inst {
+			op.Deps = append(op.Deps, ri.prod)
+		}
 	}
 }
 
